@@ -74,6 +74,7 @@ type FuncContract struct {
 	Line       string
 	Uses       []string // lemma names to assume inside
 	NoSharedAppend bool
+	IterBody       bool // the function returns a function literal (iterator): its body is verified as part of this unit
 }
 
 // CallsiteClause is an obligation on the arguments of a call made by the function (matched by the call's source text prefix).
@@ -165,7 +166,7 @@ var clauseKeywords = map[string]bool{
 	"writes": true, "loop": true, "invariant": true, "decreases": true, "param": true,
 	"inline": true, "terminates": true, "pure": true, "purerec": true, "axiom": true,
 	"ghost": true, "ghostfn": true, "lemma": true, "extern": true, "functype": true,
-	"trusted": true, "opaque": true, "noshare": true, "ghostparam": true, "check": true, "bind": true, "behavior": true, "assumes": true, "callsite": true, "capture": true, "index": true, "use": true,
+	"trusted": true, "opaque": true, "noshare": true, "ghostparam": true, "check": true, "bind": true, "behavior": true, "assumes": true, "callsite": true, "capture": true, "iterbody": true, "index": true, "use": true,
 }
 
 // rewriteImplies converts "A ==> B" to "implies(A, B)" and "A <==> B" to "iff(A,B)" at every nesting level.
@@ -488,6 +489,8 @@ func (cs *Contracts) loadFile(path, pkgPath string) error {
 			cur.Inline = true
 		case "terminates":
 			cur.Terminates = true
+		case "iterbody":
+			cur.IterBody = true
 		case "noshare":
 			cur.NoSharedAppend = true
 		case "trusted":
